@@ -352,6 +352,13 @@ def handle_url(f, backend):
             _state["urls"].append(None)
             return "!dead"
         return push(lambda: URL(u.human_repr()))
+    if op == "hre":
+        # the decoded host supplied again: u.with_host(u.host)
+        u = get(f[2])
+        if u is None:
+            _state["urls"].append(None)
+            return "!dead"
+        return push(lambda: u.with_host(u.host))
     if op == "pkl":
         u = get(f[1])
         if u is None:
